@@ -186,9 +186,9 @@ theorem into_boxed_slice_spec (z : Bool) (env : Env) (w : W) (s : Nat) (cs : Lis
     OnlySlotV w (step z env (.fromVec s) w) s (.slice cs (some cap)) [] [] := by
   refine ⟨⟨?_, ?_, ?_, ?_, ?_⟩, ⟨?_, ?_, ?_, ?_, ?_⟩⟩ <;> simp [step, effOf, h, applyEff]
 
-theorem slice_to_vec_spec (env : Env) (w : W) (s : Nat) (cs : List Cell) (cap : Nat)
-    (h : w.slots[s]? = some (.slice cs (some cap))) :
-    OnlySlot w (step false env (.sliceToVec s) w) s (.vec cs cap) [] [] := by
+theorem slice_to_vec_spec (env : Env) (w : W) (s : Nat) (cs : List Cell) (cap : Option Nat)
+    (h : w.slots[s]? = some (.slice cs cap)) :
+    OnlySlot w (step false env (.sliceToVec s) w) s (.vec cs cs.length) [] [] := by
   refine ⟨?_, ?_, ?_, ?_, ?_, ?_⟩ <;> simp [step, effOf, h, applyEff]
 
 /-- `Box::from_iter_in`: a boxed slice of the items in iteration order, with fresh ids -/
